@@ -240,33 +240,52 @@ func (p *asyncPostProcess) OnFinished(f func(path string, content []byte) error)
 	var wg sync.WaitGroup
 	errs := make(chan error, len(p.jobs))
 	processing := make(chan struct{}, p.concurrency)
+	verifIdx := -1
 	for _, j := range p.jobs {
+		verifIdx++
+		verifJob := verifIdx
+		verifPoint("dispatch", verifJob)
 		select {
 		case processing <- struct{}{}: // processing++, block if full
+			verifPoint("acquired", verifJob)
 		case err := <-errs:
+			verifPoint("err-received", verifJob)
 			wg.Wait()
+			verifPoint("early-return", verifJob)
 			return err
 		}
 		wg.Add(1)
+		verifPoint("spawn", verifJob)
 		go func(path string, content []byte) {
+			defer verifPoint("w-released", verifJob)
 			defer func() { wg.Done(); <-processing }() // processing--
+			defer verifPoint("w-exit", verifJob)
+			verifPoint("w-start", verifJob)
 			var err error
 			if p.pp != nil {
 				content, err = p.pp.PostProcess(path, content)
 			}
+			verifPoint("w-postprocessed", verifJob)
 			if err == nil {
 				err = f(path, content)
+				verifPoint("w-written", verifJob)
 			}
 			if err != nil {
+				verifPoint("w-err-send", verifJob)
 				errs <- err
+				verifPoint("w-err-sent", verifJob)
 			}
 		}(j.Path, unsafex.StringToBinary(j.Content))
 	}
+	verifPoint("final-wait", -1)
 	wg.Wait()
+	verifPoint("final-waited", -1)
 	select {
 	case err := <-errs:
+		verifPoint("final-err", -1)
 		return err
 	default:
+		verifPoint("final-nil", -1)
 		return nil
 	}
 }
